@@ -223,7 +223,20 @@ REUSE_CORPUS = [
      [{"m": "array", "a": [], "o": [{"i": 4}, {"a": 0}]}], [{"m": "ret_arr", "a": [], "o": [{"a": 0}]}]),
 ]
 
+_ADD01 = {"m": "add", "a": [], "o": [{"r": [0, 0]}, {"r": [0, 0]}, {"r": [0, 1]}]}
+CHAIN_TEXTS = [
+    # the value of `bump` uses macros defined LATER (seeded change C03_21: one regex pass, no rescan)
+    ("# DEFINE bump {add $acc $acc $step}\n# DEFINE acc R0\n# DEFINE step R1\n$bump\n$bump\n", [_ADD01, _ADD01]),
+    # a chain of depth 3, every value using a macro defined later
+    ("# DEFINE top {$mid}\n# DEFINE mid {add $acc $acc $step}\n# DEFINE acc R0\n# DEFINE step R1\n$top\n", [_ADD01]),
+    ("# DEFINE cell $arr[$i]\n# DEFINE arr @2\n# DEFINE i R3\nstore R0 $cell\n",
+     [{"m": "store", "a": [], "o": [{"r": [0, 0]}, {"e": [2, {"r": [0, 3]}]}]}]),
+]
+
 FRONT_CORPUS = [
+    "# DEFINE bump {add $acc $acc $step}\n# DEFINE acc R0\n# DEFINE step R1\n$bump\n",
+    "# DEFINE acc R0\n# DEFINE bump {add $acc $acc $acc}\n$bump\n",       # uses a macro defined EARLIER: stays `$acc`
+
     # label names that only START like a register are labels (seeded change C03_20: `.match` instead of `fullmatch`)
     "M1_done:\nset R0 1\njmp M1_done\n",
     "set R2 0\nR2D2:\nadd R2 R2 1\nblt R2 3 R2D2\nbez R2 C3PO\nQ0x:\nC3PO:\njmp Q0x\n",
@@ -566,6 +579,35 @@ def run(ctx):
                                              "called exactly `name`", "kf": None,
                                      "input": {"lines": body, "macros": [list(kv) for kv in macros],
                                                "expected": want, "code": lines_real[-1]}})
+    # chained macros (a value uses macros defined later or earlier, depth 2-3): model vs code, and — whether or
+    # not they agree — the code against the sequential reading of the statement (model-free)
+    n_chain = 0
+    for _ in range(n_text // 4):
+        macros, body, order = H.gen_chained_macros(rng)
+        res.evaluations += 1
+        res.count("macro-chain:" + order)
+        lines_reqs.append({"op": "asm.macros", "lines": body, "macros": [list(kv) for kv in macros]})
+        lines_real.append(H.real_apply_macros(body, macros))
+        want = {"lines": H.sequential_reference(body, macros)}
+        if lines_real[-1] != want and n_chain <= 3:
+            n_chain += 1
+            small = list(macros)
+            for kv in list(small):          # drop macros the failure does not need
+                trial = [x for x in small if x != kv]
+                if H.real_apply_macros(body, trial) != {"lines": H.sequential_reference(body, trial)}:
+                    small = trial
+            res.failures.append({"what": "macros are not applied one after the other in preamble order (a value that uses "
+                                         "a macro defined later is not expanded)", "kf": None,
+                                 "input": {"lines": body, "macros": [list(kv) for kv in small],
+                                           "expected": {"lines": H.sequential_reference(body, small)},
+                                           "code": H.real_apply_macros(body, small)}})
+    # whole texts with chained macros must assemble like the program they denote
+    for txt, want in CHAIN_TEXTS:
+        res.evaluations += 1
+        got = H.real_parse_proto("# NETQASM 0.0\n# APPID 0\n" + txt)
+        if got != {"ok": want}:
+            res.failures.append({"what": "a legal text whose macro values use other macros is refused or misread",
+                                 "kf": None, "input": {"text": txt, "parsed": got, "expected": want}})
     for rq, rr, mm in zip(lines_reqs + word_reqs, lines_real + word_real, H.batch(drv, lines_reqs + word_reqs)):
         res.evaluations += 1
         res.count("text:" + rq["op"])
